@@ -54,7 +54,7 @@ fn everything_plan() -> UnitPlan {
 }
 
 /// Tree over the letters of the class alphabet (B, E, digits 1 0).
-const CLASS_TREE: Node<'static, LogDev> = Node::Branch {
+pub const CLASS_TREE: Node<'static, LogDev> = Node::Branch {
     name: b"",
     default: false,
     sub: &[
@@ -263,23 +263,33 @@ fn any_plan() -> impl Strategy<Value = UnitPlan> {
     })
 }
 
-fn fixed_case() -> impl Strategy<Value = Case> {
-    (fixed_message(any::<bool>().boxed(), 4, 4, true, true), fixed_message(any::<bool>().boxed(), 2, 3, true, true), proptest::collection::vec(mutation(), 1..3), proptest::collection::vec(any_plan(), 0..5)).prop_map(|(a, b, muts, plans)| {
+/// Bytes of a fixed-tree message after 0..2 byte-level mutations.
+pub fn mutated_fixed_bytes(min_mut: usize) -> impl Strategy<Value = Vec<u8>> {
+    (fixed_message(any::<bool>().boxed(), 4, 4, true, true), fixed_message(any::<bool>().boxed(), 2, 3, true, true), proptest::collection::vec(mutation(), min_mut..3)).prop_map(|(a, b, muts)| {
         let other = b.render().bytes;
         let mut bytes = a.render().bytes;
         for m in &muts {
             bytes = apply_mutation(bytes, m, &other);
         }
-        Case::Fixed { bytes: B(bytes), plans }
+        bytes
     })
 }
 
+fn fixed_case() -> impl Strategy<Value = Case> {
+    (mutated_fixed_bytes(1), proptest::collection::vec(any_plan(), 0..5)).prop_map(|(bytes, plans)| Case::Fixed { bytes: B(bytes), plans })
+}
+
 fn generated_case() -> impl Strategy<Value = Case> {
+    (mutated_generated(), proptest::collection::vec(any_plan(), 0..5)).prop_map(|((tree, bytes), plans)| Case::Generated { tree, bytes: B(bytes), plans })
+}
+
+/// A generated tree and the bytes of a message walking it, after 0..2 mutations.
+pub fn mutated_generated() -> impl Strategy<Value = (Tree, Vec<u8>)> {
     let intent = || {
         (prop_oneof![4 => Just(0u8), 8 => Just(1u8), 3 => Just(2u8), 1 => Just(3u8), 1 => Just(4u8), 1 => Just(5u8), 1 => Just(6u8)], any::<[u16; 12]>(), any::<u8>(), any::<u8>(), any::<u8>(), 0u8..4, any::<u16>(), any::<u8>(), any::<bool>(), any::<u8>())
             .prop_map(|(kind, picks, stop, omit, long, case, mask, one, query, ws)| Intent { kind, picks, stop, omit, long, case, mask, one, query, ws })
     };
-    (tree_strategy(), proptest::collection::vec((intent(), proptest::collection::vec(datum(false), 0..4)), 1..5), proptest::collection::vec(mutation(), 0..3), proptest::collection::vec(any_plan(), 0..5)).prop_map(|(tree, units, muts, plans)| {
+    (tree_strategy(), proptest::collection::vec((intent(), proptest::collection::vec(datum(false), 0..4)), 1..5), proptest::collection::vec(mutation(), 0..3)).prop_map(|(tree, units, muts)| {
         let intents: Vec<Intent> = units.iter().map(|(i, _)| i.clone()).collect();
         let mut msg = crate::props::c02::message_for(&tree, &intents);
         for (u, (_, data)) in msg.units.iter_mut().zip(units.iter()) {
@@ -293,7 +303,7 @@ fn generated_case() -> impl Strategy<Value = Case> {
         for m in &muts {
             bytes = apply_mutation(bytes, m, b"");
         }
-        Case::Generated { tree, bytes: B(bytes), plans }
+        (tree, bytes)
     })
 }
 
